@@ -146,6 +146,17 @@ def run(tier, seed):
             des_lines_model.append(des_lines_impl[-1])
             des_meta.append(('ORACLE-unknown', c, hi))
 
+    # every byte value that is no instruction the model handles, at OPCODE position, in every phase, alone and
+    # followed by a zero byte (an operand for a would-be one-operand instruction): must be reported as an error
+    for ph in 'GCP':
+        for b in range(256):
+            if b in G.KNOWN_OPS:
+                continue
+            for tail in ('', '00'):
+                req = f'DES fixed {ph} - {b:02x}{tail}'
+                des_lines_impl.append(req)
+                des_lines_model.append(req)
+                des_meta.append(('ORACLE-unknown', None, None))
     dimpl = IC.run_impl(des_lines_impl)
     dmodel = IC.run_model(exe, des_lines_model) if exe else ['<nomodel>'] * len(des_lines_model)
     for req, ai, am, (kind, c, hi) in zip(des_lines_impl, dimpl, dmodel, des_meta):
